@@ -143,7 +143,82 @@ def size_cases(rng, tier):
     cases.append(line(4096, [b"BOGUS\r\n\r\n", b"GET /ok HTTP/1.1\r\nHost: a\r\n\r\n"]))
     cases.append(line(4096, [b"GET /a HTTP/1.1\r\nHost: a\r\n\r\n", b"GET /b HTTP/1.1\r\nHost: a\r\n\r\n", post(b"/c", b"123")]))
     cases.append(line(4096, [b"GET /a HTTP/1.1\r\nHost: a\r\n\r\n", b"GET / HTTP/9.9\r\n\r\n", b"GET /b HTTP/1.1\r\nHost: a\r\n\r\n"]))
+    for c, w in pipelined_cases(rng, tier):
+        PIPE_WANT[c] = w
+        cases.append(c)
     return cases
+
+
+PIPE_WANT = {}
+
+
+def pipelined_cases(rng, tier):
+    """Requests that share reads (a client that pipelines): what the property expects is known to the generator - every request
+    within the limit is handed to the handler, in order, whatever follows it in the read; the first request over the limit (or
+    malformed) is refused and nothing happens after it.  Returns (case line, expected harness output)."""
+    out = []
+    def get(path):
+        return b"GET " + path + b" HTTP/1.1\r\nHost: a\r\n\r\n"
+    def post(path, body):
+        return b"POST " + path + b" HTTP/1.1\r\nHost: a\r\nContent-Length: %d\r\n\r\n" % len(body) + body
+    def chunked(path, parts):
+        return (b"POST " + path + b" HTTP/1.1\r\nHost: a\r\nTransfer-Encoding: chunked\r\n\r\n"
+                + b"".join(b"%x\r\n" % len(x) + x + b"\r\n" for x in parts) + b"0\r\n\r\n")
+    def line(limit, segs):
+        return "Z %d %s" % (limit, ",".join(pv.hexs(x) for x in segs if x))
+    def expect(reqs):
+        # reqs: (path, body length, code): 200 = served, anything else = refused there
+        codes, seen = [], []
+        for path, blen, code in reqs:
+            codes.append(str(code))
+            if code != 200:
+                break
+            seen.append("%s:%d" % (path, blen))
+        return "Z codes=%s handler=%d seen=%s" % (",".join(codes) or "-", len(seen), ",".join(seen) or "-")
+    def cut(data, k):
+        pts = sorted(rng.sample(range(1, len(data)), min(k, len(data) - 1))) if k else []
+        return [data[a:b] for a, b in zip([0] + pts, pts + [len(data)])]
+    def add(limit, segs, reqs):
+        out.append((line(limit, segs), expect(reqs)))
+    a, b, c = get(b"/a"), post(b"/b", b"12345"), chunked(b"/c", [b"abc", b"defgh"])
+    add(4096, [a + b], [("/a", 0, 200), ("/b", 5, 200)])
+    add(4096, [a + b + c + a], [("/a", 0, 200), ("/b", 5, 200), ("/c", 8, 200), ("/a", 0, 200)])
+    add(4096, [a * 40], [("/a", 0, 200)] * 40)
+    add(4096, [b[:20], b[20:] + a[:7], a[7:] + c[:-3], c[-3:]], [("/b", 5, 200), ("/a", 0, 200), ("/c", 8, 200)])
+    add(4096, [a + b"BOGUS\r\n\r\n" + a], [("/a", 0, 200), ("-", 0, 400)])
+    add(4096, [a + b"GET / HTTP/9.9\r\n\r\n" + a], [("/a", 0, 200), ("-", 0, 400)])
+    # the request is exactly the limit / one byte below / one above, the next one begins in the same read
+    for limit in (64, 200):
+        for delta in (-1, 0, 1):
+            base = post(b"/p", b"")
+            m = post(b"/p", b"b" * (limit + delta - len(base) - (len(str(limit)) - 1)))
+            m = post(b"/p", m.split(b"\r\n\r\n", 1)[1] + b"b" * (limit + delta - len(m))) if len(m) < limit + delta else m
+            if len(m) != limit + delta:
+                continue
+            blen = len(m.split(b"\r\n\r\n", 1)[1])
+            first = ("/p", blen, 200 if delta <= 0 else 413)
+            add(limit, [m + a], [first, ("/a", 0, 200)])
+            add(limit, [m[:30], m[30:] + a], [first, ("/a", 0, 200)])
+            add(limit, [m + a[:9], a[9:]], [first, ("/a", 0, 200)])
+            add(limit, [m[:30], m[30:] + a + a], [first, ("/a", 0, 200), ("/a", 0, 200)])
+    # random trains of requests cut anywhere into 1-4 reads
+    n = 12 if tier == "quick" else 150
+    for _ in range(n):
+        reqs, data = [], b""
+        for _k in range(rng.randint(2, 6)):
+            kind = rng.randint(0, 2)
+            path = b"/r%d" % rng.randint(0, 99)
+            if kind == 0:
+                data += get(path); reqs.append((path.decode(), 0, 200))
+            elif kind == 1:
+                body = bytes(rng.choice(b"abcxyz\r\n:") for _j in range(rng.randint(0, 40)))
+                data += post(path, body); reqs.append((path.decode(), len(body), 200))
+            else:
+                parts = [bytes(rng.choice(b"abc\r\n0") for _j in range(rng.randint(1, 12))) for _q in range(rng.randint(1, 3))]
+                data += chunked(path, parts); reqs.append((path.decode(), sum(len(x) for x in parts), 200))
+        limit = rng.choice([4096, 150, 120])
+        add(limit, cut(data, rng.randint(0, 3)), reqs)
+    return out
 
 
 # a request that is complete in time and answered late by a handler thread of its own: the idle scan does not know an answer is
@@ -184,11 +259,15 @@ def run_sizes(rep, tier, seed):
             if r[0] == model[k]:
                 impl[k] = r[0]
                 break
+    want = PIPE_WANT
     for c, i, m in zip(cases, impl, model):
         t = c.split()
         limit = int(t[1]); segs = [pv.unhex(x) for x in t[2].split(",")]
         f = dict(x.split("=", 1) for x in i.split()[1:]) if i.startswith("Z ") else {}
         what = None
+        if c in want and i != want[c]:
+            what = ("requests sharing reads (maximum request size %d, reads of %s bytes): the server did '%s'; every request within the limit is to be "
+                    "served, in order, as on a fresh connection: '%s'" % (limit, [len(x) for x in segs], i, want[c]))
         if not f:
             what = "live size case: %s" % i
         else:
